@@ -702,7 +702,7 @@ package parse
 //@   pure
 //@ func (*tree).notmsg
 //@   props C05
-//@   requires treeOK(t)
+//@   requires treeOK(t) && 0 <= tok.pos && tok.pos <= len(t.lex.input)
 //@   pure
 
 //@ func (*tree).parseTemplate
@@ -722,6 +722,7 @@ package parse
 //@ func (*tree).parsePlural
 //@   like parserFn
 //@   measure rem(t), 6
+//@   requires 0 <= tok.pos && tok.pos <= len(t.lex.input)
 //@   nosafety
 //@   loop 0
 //@     invariant stepOK(t) && fresh(cases)
